@@ -57,6 +57,20 @@ def cases_for(pid, tier, seed):
         for t in rnd.sample(trees, min(len(trees), nfl)):
             if J.variables(t):
                 add(t, pts=perturbed_points(J.variables(t), rnd, 2))
+    if pid == "C14":
+        names = ["self", "é", "1x", "class", "_", "whatever", "x1", "Δt"]
+        for nm in names:
+            V = J.Var(nm)
+            for t in (V, J.KUn("NthPower", V, 2), J.Mul(V, V), J.Add(V, gen.Y), J.Bin("Divide", gen.C[1], V), J.Mul(V, gen.Y, V)):
+                add(t, pts=gen.grid(J.variables(t), [gen.q(0), gen.q(2)]))
+        trees = gen.dedup(gen.d1q() + rnd.sample(gen.over(gen.d1q(), ks=(1, 2, 3)), 300 if quick else 3000) + gen.random_trees(seed * 11 + 7, 150 if quick else 3000, depth=3, names=("x", "y", "z")))
+        for t in trees:
+            vs = sorted(J.variables(t))
+            base = {nm: rnd.choice(G) for nm in vs}
+            pts = [dict(base), dict(base, u=gen.q(1)), dict(base, zz=gen.q(5))]
+            for drop in vs:
+                pts.append({k: v for k, v in base.items() if k != drop})
+            add(t, pts=pts)
     if pid == "C07":
         bu = gen.boundary_universe()
         gpts = [gen.q(-1), gen.q(0), gen.q(1, 2), gen.q(1), gen.q(2)] if quick else gen.GT
@@ -83,7 +97,9 @@ def run_impl(cases):
         vs = sorted(J.variables(c["tree"]))
         qv = vs + [ABSENT]
         dvar = vs[0] if len(vs) == 1 else (ABSENT if not vs else "")
-        row = {"i": i, "h": heap, "pts": c["pts"], "q": qv, "dvar": dvar, "outs": [], "svs": [], "dv": [], "at": []}
+        dctor = J.outcome_of(lambda: S.Derivative(root), conv=lambda o: {"k": "ok"})
+        row = {"i": i, "h": heap, "pts": c["pts"], "q": qv, "dvar": dvar, "outs": [], "svs": [], "dv": [], "at": [],
+               "dctor": "ok" if dctor.get("k") == "ok" else "raised"}
         varobj = {v: S.Variable(v) for v in qv}
         for j, p in enumerate(c["pts"]):
             pt = J.build_point(p)
@@ -148,6 +164,12 @@ def float_layer(case, p, v, o, prop):
 
 def run(pid, tier, seed):
     rep = Report(pid, tier, seed)
+    cov = collect(rep, pid, tier, seed)
+    return rep.finish(cov, exhaustive=False)
+
+
+def collect(rep, pid, tier, seed):
+    """runs the engine and records violations of `pid` in rep; returns the coverage dictionary"""
     cases = cases_for(pid, tier, seed)
     rows = run_impl(cases)
     work = tlcrun.scratch_dir("diff")
@@ -218,9 +240,9 @@ def run(pid, tier, seed):
     rep.assumptions = ["reference semantics SmSem.DVal (dual numbers), cross-checked against the derivative term Deriv by TLC (OracleOK in EvalCases)",
                        "irrational cases are judged by harness/specval.py with tolerance 1e-10*max(1,largest intermediate); it is cross-checked by TLC on every exact case",
                        "IEEE-754 double arithmetic and libm of this platform"]
-    return rep.finish({"evaluations": nq * 3, "queries": nq, "distinct_nontrivial": len(nontrivial), "traces_validated_against_impl": len(rows),
+    return ({"evaluations": nq * 3, "queries": nq, "distinct_nontrivial": len(nontrivial), "traces_validated_against_impl": len(rows),
                        "cases": len(rows), **counts,
                        "rule": "cases = (expression heap, points) x every variable (occurring, and the absent name 'zz'; given alternately as Variable and str) x routes "
                                "{late Partial.at, Derivative.at (Point / bare number), LocatedDifferential.component, Differential.at.component}; universes: U2 over D1q, "
                                "chain-rule towers, products/sums of 3-4 factors, DAG pools with shared nodes, boundary universe (C07), seeded random depth 3-4; "
-                               "distinct = (tree, point, variable); non-trivial = tree has >= 2 nodes"}, exhaustive=False)
+                               "distinct = (tree, point, variable); non-trivial = tree has >= 2 nodes"})
